@@ -37,6 +37,13 @@ RO_VIEW_REUSE_IS_VIOLATION = False
 
 STYLES = OUTS + ("mixed",)
 
+# thorough tier: all 2^(L-1) compositions of streams of L <= this many units and of a window of this many units
+ALL_UNITS_THOROUGH = 14
+# thorough tier: SIV / TupleHash component vectors = all compositions of strings of up to this many bytes
+SIV_SMALL_THOROUGH = 9
+TH_SMALL_THOROUGH = 9
+SIV_LENS4 = (1, 16, 17)          # component lengths of the 4-component SIV vectors
+
 
 class HarnessError(Exception):
     pass
@@ -508,6 +515,21 @@ def comps2(L, cuts, gran):
         yield (p,)
 
 
+def comps4(L, cuts, gran):
+    """all compositions of L into <= 4 parts with cut points in the set: those of comps3 first, then the 4-part ones"""
+    for c in comps3(L, cuts, gran):
+        yield c
+    C = cutset(L, cuts, gran)
+    for i, p in enumerate(C):
+        for j in range(i, len(C)):
+            q = C[j]
+            for r in C[j:]:
+                yield (p, q, r)
+
+
+_COMPS = {2: comps2, 3: comps3, 4: comps4}
+
+
 def parts_of(L, comp):
     pts = (0,) + tuple(comp) + (L,)
     return [(pts[i], pts[i + 1]) for i in range(len(pts) - 1)]
@@ -562,27 +584,29 @@ def other_steps(T, s, lengths):
     return before, after
 
 
-def stream_comps(T, s, L, three=True):
+def stream_comps(T, s, L, maxparts=3):
     st = T.streams[s]
     if s == len(T.streams) - 1 and not getattr(T, "multi_m", True):
         comps = [()]
     else:
-        comps = list((comps3 if three else comps2)(L, st.cuts, st.gran))
+        comps = list(_COMPS[maxparts](L, st.cuts, st.gran))
     out = [("c", c) for c in comps]
     if L == 0 and st.zero_calls:
         out.append(("z", None))                     # no call at all on this stream
     return out
 
 
-def gen_sweep(T, s, lengths, full, ctr0=0):
-    """vary stream s (<= 3 parts, cuts in the boundary set) x buffer kinds x output styles"""
+def gen_sweep(T, s, lengths, full, ctr0=0, deep=False):
+    """vary stream s (<= 3 parts, cuts in the boundary set) x buffer kinds x output styles.
+    deep: <= 4 parts (the 4-part ones with one rotation of the buffer kinds), and the combined last call
+    (encrypt_and_digest / decrypt_and_verify) after earlier encrypt()/decrypt() calls where the class documents it"""
     st = T.streams[s]
     L = lengths[s]
     last = len(T.streams) - 1
     before, after = other_steps(T, s, lengths)
     styles = STYLES if st.has_out else ("ret",)
     ctr = ctr0
-    for tag, comp in stream_comps(T, s, L):
+    for tag, comp in stream_comps(T, s, L, 4 if deep else 3):
         if tag == "z":
             yield comp, (tuple(before + after), False, False)
             continue
@@ -593,7 +617,7 @@ def gen_sweep(T, s, lengths, full, ctr0=0):
                 yield comp, (tuple(before + [(s, a, e, "len", "ret") for a, e in parts] + after), False, False)
             continue
         seen = set()
-        for kinds in kind_assignments(n, full, ctr):
+        for kinds in kind_assignments(n, full and n <= 3, ctr):
             ctr += 1
             for style in styles:
                 outs = out_assignment(style, n, ctr)
@@ -607,39 +631,53 @@ def gen_sweep(T, s, lengths, full, ctr0=0):
                     yield comp, (steps, False, False)
                 if T.ctor_stream == s and style == "ret" and (full or n <= 2):
                     yield comp, (steps, True, False)
-                if T.combo and s == last and n == 1 and (style == "ret" or (T.combo_out and style != "mixed")):
+                if T.combo and s == last and (n == 1 or (deep and T.combo_multi)) \
+                        and (style == "ret" or (T.combo_out and style != "mixed")):
                     yield comp, (steps, False, True)
 
 
-def gen_joint(T, lengths, full, ctr0=0):
-    """both streams split into <= 2 parts jointly"""
+def gen_joint(T, lengths, full, ctr0=0, deep=False):
+    """both streams split into <= 2 parts jointly; deep: also 3 parts x <= 2 parts and <= 2 parts x 3 parts
+    (one rotation of the buffer kinds)"""
     s0, s1 = T.streams[0], T.streams[1]
     styles = STYLES if s1.has_out else ("ret",)
     ctr = ctr0
-    for t0, c0 in stream_comps(T, 0, lengths[0], three=False):
-        p0 = [] if t0 == "z" else parts_of(lengths[0], c0)
-        for t1, c1 in stream_comps(T, 1, lengths[1], three=False):
-            p1 = [] if t1 == "z" else parts_of(lengths[1], c1)
-            if len(p0) <= 1 and len(p1) <= 1 and t0 != "z" and t1 != "z":
-                continue                            # covered by the sweeps
-            comp = (c0, c1)
-            n0 = len(p0)
-            n1 = 0 if s1.is_len else len(p1)
-            seen = set()
-            for r in (range(5) if full else (ctr % 5,)):
-                ctr += 1
-                kinds = tuple(KINDS[(r + i) % 5] for i in range(n0 + n1))
-                for style in styles:
-                    a = build_steps(0, p0, kinds[:n0], ("ret",) * n0)
-                    if s1.is_len:
-                        bsteps = [(1, x, y, "len", "ret") for x, y in p1]
-                    else:
-                        bsteps = build_steps(1, p1, kinds[n0:], out_assignment(style, n1, ctr))
-                    steps = tuple(a + bsteps)
-                    if steps in seen:
+    pairs = []
+    for t0, c0 in stream_comps(T, 0, lengths[0], 2):
+        for t1, c1 in stream_comps(T, 1, lengths[1], 2):
+            pairs.append((t0, c0, t1, c1, full))
+    if deep:
+        for m0, m1 in ((3, 2), (2, 3)):
+            for t0, c0 in stream_comps(T, 0, lengths[0], m0):
+                if t0 == "z" or (m0 == 3 and len(c0) != 2):
+                    continue
+                for t1, c1 in stream_comps(T, 1, lengths[1], m1):
+                    if t1 == "z" or (m1 == 3 and len(c1) != 2):
                         continue
-                    seen.add(steps)
-                    yield comp, (steps, False, False)
+                    pairs.append((t0, c0, t1, c1, False))
+    for t0, c0, t1, c1, full in pairs:
+        p0 = [] if t0 == "z" else parts_of(lengths[0], c0)
+        p1 = [] if t1 == "z" else parts_of(lengths[1], c1)
+        if len(p0) <= 1 and len(p1) <= 1 and t0 != "z" and t1 != "z":
+            continue                            # covered by the sweeps
+        comp = (c0, c1)
+        n0 = len(p0)
+        n1 = 0 if s1.is_len else len(p1)
+        seen = set()
+        for r in (range(5) if full else (ctr % 5,)):
+            ctr += 1
+            kinds = tuple(KINDS[(r + i) % 5] for i in range(n0 + n1))
+            for style in styles:
+                a = build_steps(0, p0, kinds[:n0], ("ret",) * n0)
+                if s1.is_len:
+                    bsteps = [(1, x, y, "len", "ret") for x, y in p1]
+                else:
+                    bsteps = build_steps(1, p1, kinds[n0:], out_assignment(style, n1, ctr))
+                steps = tuple(a + bsteps)
+                if steps in seen:
+                    continue
+                seen.add(steps)
+                yield comp, (steps, False, False)
 
 
 def gen_allcomps(T, s, lengths, prefix, window, ctr0=0):
@@ -676,14 +714,18 @@ class Stats(object):
         self.shapes = set()
         self.nontrivial = 0
         self.sampled = False
+        self.combo_multi = 0
+        self.calls = {}
 
     def note(self, trace):
         self.nontrivial += 1
         for _, _, k, o in trace:
             self.kinds.add(k)
             self.outs.add(o)
-        if len(trace) > self.maxcalls:
-            self.maxcalls = len(trace)
+        n = len(trace)
+        if n > self.maxcalls:
+            self.maxcalls = n
+        self.calls[n] = self.calls.get(n, 0) + 1
 
     def flush(self, acc, tname):
         for k in self.kinds:
@@ -697,6 +739,9 @@ class Stats(object):
         for o in self.outs:
             acc.seen("class_out", (tname, o))
         acc.seen("maxcalls", min(self.maxcalls, 8))
+        for n, k in self.calls.items():
+            acc.count("_calls/%d" % min(n, 16), k)
+        acc.count("_combo_multi", self.combo_multi)
         acc.count("nontrivial_cases", self.nontrivial)
         acc.count("_cases/" + tname, self.nontrivial)
 
@@ -733,6 +778,8 @@ def run_part(T, dirn, part, full, thorough, acc):
         for comp, plan in gen:
             stats.shapes.add(hash((tid, dnum, b.lengths, comp)))
             check_plan(b, plan, acc, stats)
+            if plan[2] and len(plan[0]) > ns:
+                stats.combo_multi += 1
             if not stats.sampled and len(plan[0]) >= 4 and b.lengths[-1]:
                 stats.sampled = True
                 acc.sample({"case": describe(T, dirn, b.lengths, plan), "part": part,
@@ -745,7 +792,7 @@ def run_part(T, dirn, part, full, thorough, acc):
             for L in st.lens:
                 lengths = _defaults(T)
                 lengths[s] = L
-                if sum(lengths) > 700 and not getattr(T, "fam", "") == "KangarooTwelve":
+                if sum(lengths) > 700 and not getattr(T, "fam", "") == "KangarooTwelve" and not T.ref_any_len:
                     continue
                 if check_reference(T, lengths, acc):
                     done += 1
@@ -758,27 +805,30 @@ def run_part(T, dirn, part, full, thorough, acc):
             lengths = _defaults(T)
             lengths[s] = L
             b = make_base(T, dirn, lengths, acc)
-            go(b, gen_sweep(T, s, lengths, full, ctr0=L))
-    elif part == "joint":
-        for L0 in T.streams[0].joint:
+            go(b, gen_sweep(T, s, lengths, full, ctr0=L, deep=thorough))
+    elif part.startswith("joint"):
+        L0s = T.streams[0].joint
+        if ":" in part:                              # thorough: one shard per length of the first stream
+            L0s = [L0s[int(part.split(":")[1])]]
+        for L0 in L0s:
             for L1 in T.streams[1].joint:
                 lengths = [L0, L1]
                 b = make_base(T, dirn, lengths, acc)
-                go(b, gen_joint(T, lengths, full and thorough, ctr0=L0 + L1))
+                go(b, gen_joint(T, lengths, full and thorough, ctr0=L0 + L1, deep=thorough))
     elif part.startswith("all"):
         s = int(part[3:])
         st = T.streams[s]
         if s == ns - 1 and not getattr(T, "multi_m", True):
             return
         g = st.gran
-        lmax = (12 if thorough else 10) if full else 6
+        lmax = (ALL_UNITS_THOROUGH if thorough else 10) if full else 6
         for n in range(1, lmax + 1):
             lengths = _defaults(T)
             lengths[s] = n * g
             b = make_base(T, dirn, lengths, acc)
             go(b, gen_allcomps(T, s, lengths, 0, n * g, ctr0=n))
         if full:
-            w = 12 if thorough else 10
+            w = ALL_UNITS_THOROUGH if thorough else 10
             for center in st.win:
                 prefix = max(0, center - (w // 2) * g)
                 lengths = _defaults(T)
@@ -808,7 +858,7 @@ def run_part(T, dirn, part, full, thorough, acc):
             before, after = other_steps(T, s, lengths)
             before = [(i, x, y, k if k == "len" else "romv_mut", o) for i, x, y, k, o in before]
             after = [(i, x, y, k if k == "len" else "romv_mut", o) for i, x, y, k, o in after]
-            for tag, comp in stream_comps(T, s, lengths[s], three=False):
+            for tag, comp in stream_comps(T, s, lengths[s], 2):
                 if tag == "z":
                     continue
                 parts = parts_of(lengths[s], comp)
@@ -968,7 +1018,7 @@ def siv_worker(shard):
     ctr = 0
     if kind == "small":
         # all compositions of a short string into non-empty components
-        for L in range(1, (7 if thorough else 5) + 1):
+        for L in range(1, (SIV_SMALL_THOROUGH if thorough else 5) + 1):
             S = master[:L]
             vectors = [split_by(S, [b - a for a, b in parts_of(L, cuts)]) for cuts in all_compositions(L)]
             for ptlen in (0, 1, 17):
@@ -983,11 +1033,14 @@ def siv_worker(shard):
                         check_siv(klen, with_nonce, comps, pt, kinds, KINDS[ctr % 5], OUTS[(ctr // 5) % 5], dirn, acc)
                         acc.seen("shapes", hash(("siv", klen, with_nonce, tuple(len(c) for c in comps), ptlen)))
         acc.sample({"class": "AES-%d/SIV" % (klen * 4), "part": "all compositions of 1..%d bytes into components"
-                    % (7 if thorough else 5)})
+                    % (SIV_SMALL_THOROUGH if thorough else 5)})
     elif kind == "boundary":
         lens = (1, 15, 16, 17, 32, 33)
         ncomp, first = arg if isinstance(arg, tuple) else (arg, None)
         ptlens = (0, 1, 15, 16, 17, 33) + ((127, 128, 129) if thorough else ())
+        if ncomp >= 4:                              # thorough only
+            lens = SIV_LENS4
+            ptlens = (0, 1, 16, 17)
         groups = {}
         for v in itertools.product(lens, repeat=ncomp):
             groups.setdefault(sum(v), []).append(v)
@@ -1084,7 +1137,7 @@ def tuplehash_worker(shard):
     ctr = 0
     if kind == "small":
         for custom in (b"", b"c09"):
-            for L in range(0, (7 if thorough else 5) + 1):
+            for L in range(0, (TH_SMALL_THOROUGH if thorough else 5) + 1):
                 S = master[:L]
                 vectors = [split_by(S, [b - a for a, b in parts_of(L, cuts)]) for cuts in all_compositions(L)] \
                     if L else [[]]
@@ -1116,11 +1169,11 @@ def tuplehash_worker(shard):
                 if len(seen) != len(allv):
                     acc.count("th_collisions")
         acc.sample({"class": "TupleHash%d" % bits, "part": "all tuples (empty components included) over strings of 0..%d bytes, "
-                    "all groupings into update(*items) calls" % (7 if thorough else 5)})
+                    "all groupings into update(*items) calls" % (TH_SMALL_THOROUGH if thorough else 5)})
     else:
         lens = (0, 1, rate - 4, rate - 3, rate - 2, rate - 1, rate, rate + 1)
         for ncomp in (1, 2) + ((3,) if thorough else ()):
-            ll = lens if ncomp < 3 else (0, rate - 3, rate - 2, rate)
+            ll = lens              # (3 components exist in the thorough tier only)
             for v in itertools.product(ll, repeat=ncomp):
                 vec = split_by(master, v)
                 for groups in groupings(ncomp):
@@ -1146,6 +1199,31 @@ def selftests(ctx):
             ctx.acc.error("reference %s selftest raised %r" % (m.__name__, e))
 
 
+def _cost_rank(sh):
+    """thorough tier: rough relative cost of a shard (measured once), heaviest first; affects scheduling only"""
+    spec, part = sh[0], sh[4]
+    fam = spec[0]
+    kind = part.split(":")[0].rstrip("0123456789")
+    w = {"all": 30.0, "sweep": 12.0, "values": 6.0, "joint": 3.0, "ref": 0.2, "romut": 0.01}[kind]
+    if fam == "aead":
+        w *= 3.0 if spec[1] != "OCB" else 0.6
+        if spec[2] in ("DES3", "Blowfish"):
+            w *= 2.5
+        if kind == "sweep" and part == "sweep0":
+            w *= 0.5
+    elif fam == "blk":
+        w *= 1.0 if spec[1] in ("AES",) else 1.6
+        if kind == "joint":
+            w = 0
+    elif fam == "stream":
+        w *= 1.0
+    elif fam == "xof":
+        w *= 0.6 if spec[1] != "KangarooTwelve" else 2.0
+    else:
+        w *= 0.25
+    return -w
+
+
 def shards_for(thorough):
     out = []
     for spec, primary in TG.all_specs(thorough):
@@ -1157,7 +1235,10 @@ def shards_for(thorough):
             for s in range(ns):
                 out.append((spec, full, thorough, dirn, "sweep%d" % s))
                 out.append((spec, full, thorough, dirn, "all%d" % s))
-            if ns == 2:
+            if ns == 2 and thorough:
+                for i in range(len(T.streams[0].joint)):
+                    out.append((spec, full, thorough, dirn, "joint:%d" % i))
+            elif ns == 2:
                 out.append((spec, full, thorough, dirn, "joint"))
             if full:
                 out.append((spec, full, thorough, dirn, "values"))
@@ -1174,7 +1255,10 @@ def run(ctx):
     shards = shards_for(thorough)
     # heavy shards first so that the pool drains evenly
     order = {"joint": 0, "sweep": 1, "all": 2, "values": 3, "ref": 4, "romut": 5}
-    shards.sort(key=lambda sh: (order[sh[4].rstrip("0123456789")], 0 if sh[0][0] in ("aead", "xof") else 1))
+    if thorough:
+        shards.sort(key=_cost_rank)
+    else:
+        shards.sort(key=lambda sh: (order[sh[4].rstrip("0123456789")], 0 if sh[0][0] in ("aead", "xof") else 1))
     shards = [("plan",) + sh for sh in shards]
     vec = []
     for klen, wn in ((32, False), (32, True)) + (((48, True), (64, False)) if thorough else ()):
@@ -1184,6 +1268,9 @@ def run(ctx):
         for ncomp in (2,) + ((3,) if thorough else ()):
             for first in (1, 15, 16, 17, 32, 33):
                 vec.append(("siv", "boundary", klen, wn, thorough, (ncomp, first)))
+        if thorough:
+            for first in SIV_LENS4:
+                vec.append(("siv", "boundary", klen, wn, thorough, (4, first)))
     vec += [("th", k, bits, thorough) for k in ("small", "boundary") for bits in (128, 256)]
     nshards = len(shards) + len(vec)
     ctx.pmap(worker, vec[::-1] + shards if thorough else shards[:64] + vec + shards[64:])
@@ -1217,6 +1304,17 @@ def run(ctx):
     ctx.require(a.n.get("th_collisions", 0) == 0 or any(k.startswith("C09/TupleHash/split") for k in a.viol),
                 "TupleHash collision bookkeeping inconsistent")
     ctx.require(len(d.get("siv_distinct_tags", ())) >= 4, "SIV distinctness groups missing")
+    calls = {int(k.split("/")[1]): v for k, v in a.n.items() if k.startswith("_calls/")}
+    if thorough:
+        # the dimensions that only the thorough tier has were really walked
+        ctx.require(max(calls or {0: 0}) >= ALL_UNITS_THOROUGH, "no call history with %d calls" % ALL_UNITS_THOROUGH)
+        ctx.require(a.n.get("_combo_multi", 0) > 0, "combined last call after earlier encrypt()/decrypt() calls never exercised")
+        for opt in ("nonce_len=", "mac_len=", "initial_value=", "counter=", "seek ", "drop ", "keylen "):
+            ctx.require(any(opt in n and a.n.get("_cases/" + n, 0) >= 200 for n in names),
+                        "no class configuration with option %r was exercised" % opt)
+        ctx.require(len(names) >= 240, "thorough tier lost class configurations: %d" % len(names))
+        for n in names:
+            T = target(dict((target(sp, thorough).name, sp) for sp, _ in specs)[n], thorough) if False else None
     ctx.coverage_extra.update({
         "evaluations": a.n.get("evaluations", 0),
         "distinct_nontrivial": len(d.get("shapes", ())),
